@@ -130,7 +130,32 @@ def build_fn(src_root, d, contract, hint_specs, tailproof, vacuity):
         new_stmts.append(s2.rstrip())
         tail_code = ''
         tail = ''
-    proof = ''
+    proof = d.get('_preproof', '')
+    for hs in list(hint_specs):
+        gen, kv = hs
+        if 'block' not in kv:
+            continue
+        # hints for a nested block `let NAME = { stmts; tail };` : rule 3 (tail binding) applied inside the block
+        hint_specs.remove(hs)
+        name = kv['block']
+        hits = [k for k, st in enumerate(new_stmts)
+                if re.match(r'^let\s+(mut\s+)?' + re.escape(name) + r'\s*(:[^=]+)?=\s*\{', rsparse.strip_comments(st).strip())]
+        if len(hits) != 1:
+            raise GenError(f"anchor lost: block `let {name} = {{..}}` not found exactly once in {d['fn']}")
+        text = new_stmts[hits[0]]
+        code = rsparse._scan_mask(text)
+        ob = next(k for k in range(text.index('='), len(text)) if code[k] and text[k] == '{')
+        cb = rsparse.match_brace(text, code, ob)
+        iparts = rsparse.split_top_level(text[ob + 1:cb])
+        istmts = [t for t, sp in iparts if sp]
+        itail = iparts[-1][0]
+        try:
+            kv2 = dict(kv, tailname='__' + name)
+            ih = hintgen.generate(gen, kv2, [rsparse.strip_comments(t).strip() for t in istmts], rsparse.strip_comments(itail).strip(), d)
+        except (exprs.ParseError, hintgen.HintError) as e:
+            raise GenError(f"hint generator `{gen}` cannot read block {name} of {d['fn']}: {e}")
+        new_stmts[hits[0]] = (text[:ob + 1] + ';'.join(istmts) + ';' + f'\n        let __{name} = {itail.strip()};\n        proof {{\n{ih}\n        }}\n        __{name}\n        ' + text[cb:])
+        proof += f"        let X = rv({kv.get('x', 'x')});\n        assert(rv({name}) == {hintgen.LAST_NF});\n"
     for hs in hint_specs:
         gen, kv = hs
         try:
@@ -262,6 +287,8 @@ def generate(template_path, src_root, out_path, vacuity=False):
                 s2 = lines[i].strip()
                 if s2.startswith('//@contract'):
                     mode = 'c'
+                elif s2.startswith('//@preproof'):
+                    mode = 'p'
                 elif s2.startswith('//@tailproof'):
                     mode = 't'
                 elif s2.startswith('//@hints'):
@@ -272,6 +299,8 @@ def generate(template_path, src_root, out_path, vacuity=False):
                     d.setdefault('_subs', []).append((a_.strip(), b_.strip()))
                 elif mode == 'c':
                     contract += lines[i] + '\n'
+                elif mode == 'p':
+                    d['_preproof'] = d.get('_preproof', '') + lines[i] + '\n'
                 elif mode == 't':
                     tailproof += lines[i] + '\n'
                 i += 1
